@@ -187,7 +187,7 @@ KNOWN_ZERO = "zero-duration"   # timedelta(0) -> 'PT' (pinned by the repository'
 
 def writer_obligations(chk):
     """The duration-writer proof is stated on the public `serdes.isoformat` applied to a timedelta: whatever helper it
-    delegates to (today `_duration_isoformat`, memoised, recursive for negatives) is inlined from the current source, so
+    delegates to (today `_duration_isoformat`, recursive for negatives; no longer memoised since fix 4947f5c) is inlined from the current source, so
     renaming or restructuring that helper needs no contract change - only what `isoformat` emits matters."""
     I = writer_interp()
     func = f"{SER}.isoformat"
